@@ -18,9 +18,10 @@ ID = "C03"
 LEVEL = "proof"
 PROPS_FILE = "C03.v"
 RUN_MODULE = "RunC03"
-TRANSLATOR_UNITS = []
+TRANSLATOR_UNITS = ["xfrm"]
 SHARD = 42
 F7 = "F7-async-reset-runs-sync-process"
+WIDE = "C03-wide-enable-control-over-memory-read-port"
 RULE = ("designs: 1-3 clock domains (pos/neg edge; sync / async / no reset) defined in the top module, hierarchy depth <= 2, "
         "statements built with the Module DSL (If/Else, Switch/Case/Default, assignments to whole signals, slices, part-selects, "
         "Cat) from exprgen expressions; every state signal (or each half of a bitwise split one) has one driver (fragment, "
@@ -31,13 +32,21 @@ RULE = ("designs: 1-3 clock domains (pos/neg edge; sync / async / no reset) defi
         "memory designs (kinds m, x:mem): a lib.memory.Memory (width 1-4, depth 2-5, 1-2 write ports with any granularity, "
         "1-2 comb / sync / transparent read ports, port domains incl. aliases) on any node under the wrapper stacks, port "
         "inputs written by the testbench, controls unsigned(1); observed: every driven signal and every memory row after "
-        "every event. non-trivial = at least one wrapper (x) / some driven signal changes during the trace (t, s) / some "
+        "every event. 35 % of the designs read ClockSignal / ResetSignal (allow_reset_less and strict) of the domain names "
+        "usable at the node, so DomainRenamer's rewriting and DomainLowerer's resolution are observed (x: renamed late-bound "
+        "leaves; t/s/m: their values; DomainError compared by class); 12 % of the extra domains share the clock (and reset) "
+        "signal of the first; 25 % name the first domain 'sync' and use the bare forms ResetInserter(ctl) / "
+        "DomainRenamer('name'); 20 % draw controls that are expressions over design state; 25 % of the memory designs draw "
+        "controls that are not unsigned(1) (AssertionError out of the next transformer / the simulator's DomainLowerer "
+        "compared by class; directed cases for every error class). s cases are compared with faithful trace ++ spec "
+        "trace, so a listed finding must leave the faithful half exact. non-trivial = at least one wrapper (x) / some driven signal changes during the trace (t, s) / some "
         "memory row changes (m); distinct by case hash")
 MODELLED = ("_xfrm.py LHSMaskCollector / _ControlInserter / ResetInserter / EnableInserter / DomainRenamer.map_statements, "
             "Fragment.add_statements, _pyrtl._FragmentCompiler per-domain processes + edge_waker, pysim step_design/commit "
             "(coq/Model/Xfrm.v on top of Stmt.v / Process.v). Validated only: TransformedElaboratable / Fragment.get plumbing, "
             "Module DSL lowering, waker bookkeeping (the model re-runs every comb process each delta), set iteration order of "
-            "processes, ClockSignal/ResetSignal renaming, DomainRenamer on domain objects. Memory instances under the wrappers "
+            "processes, DomainRenamer on domain objects (never at the root / over a module that defines domains). ClockSignal / "
+            "ResetSignal are pseudo signals rewritten by domain_renamer_cs and resolved by lower_sig (DomainLowerer). Memory instances under the wrappers "
             "(EnableInserter port gating, DomainRenamer port domains, ResetInserter no-op) and the memory processes of "
             "_FragmentCompiler / _PyMemoryState are modelled in Xfrm.v (mem_sync, mem_comb, mstep); lib.memory.Memory "
             "elaboration is validated only")
@@ -47,6 +56,79 @@ ASSUMPTIONS = ["clocks, resets and inserter controls are testbench-written signa
 
 
 # ------------------------------------------------------------------ generation of designs
+CS_BASE = 1000      # late-bound signals: index CS_BASE + 3*domain_id + k (0 clk, 1 rst allow_reset_less, 2 rst strict)
+
+
+class ShapeTab(list):
+    """shapes by signal index; every late-bound signal is unsigned(1)"""
+    def __getitem__(self, i):
+        if isinstance(i, int) and i >= CS_BASE:
+            return [1, False]
+        return list.__getitem__(self, i)
+
+
+class SigObjs(list):
+    """signal objects by index; late-bound signals are created on demand from the domain names"""
+    def __init__(self, sigs, names_by_id):
+        list.__init__(self, sigs)
+        self.names_by_id = names_by_id
+
+    def __getitem__(self, i):
+        if isinstance(i, int) and i >= CS_BASE:
+            from amaranth.hdl import ClockSignal, ResetSignal
+            d, k = divmod(i - CS_BASE, 3)
+            nm = self.names_by_id[d]
+            return ClockSignal(nm) if k == 0 else ResetSignal(nm, allow_reset_less=(k == 1))
+        return list.__getitem__(self, i)
+
+
+def case_shapes(case):
+    return ShapeTab([[s[0], s[1]] for s in case["sigs"]])
+
+
+def ser_value(v, sm, ids):
+    """astser.ser_value plus the late-bound leaves"""
+    from amaranth.hdl import _ast as A
+    v = A.Value.cast(v)
+    t = type(v)
+    if t is A.ClockSignal or t is A.ResetSignal:
+        if v.domain not in ids:
+            ids[v.domain] = len(ids)
+        k = 0 if t is A.ClockSignal else (1 if v.allow_reset_less else 2)
+        return ["s", CS_BASE + 3 * ids[v.domain] + k]
+    if t is A.Const:
+        return ["c", v.value, len(v), bool(v.shape().signed)]
+    if t is A.Signal:
+        return ["s", sm.get(v)]
+    if t is A.Operator:
+        return ["o%d" % len(v.operands), v.operator] + [ser_value(o, sm, ids) for o in v.operands]
+    if t is A.Slice:
+        return ["sl", ser_value(v.value, sm, ids), v.start, v.stop]
+    if t is A.Part:
+        return ["pt", ser_value(v.value, sm, ids), ser_value(v.offset, sm, ids), v.width, v.stride]
+    if t is A.Concat:
+        return ["cat", [ser_value(p, sm, ids) for p in v.parts]]
+    if t is A.SwitchValue:
+        return ["sw", ser_value(v.test, sm, ids),
+                [[None if ps is None else list(ps), ser_value(e, sm, ids)] for ps, e in v.cases]]
+    raise ValueError(f"cannot serialise value of type {t.__name__}")
+
+
+def ser_stmts(stmts, sm, ids):
+    from amaranth.hdl import _ast as A
+    out = []
+    for st in stmts:
+        t = type(st)
+        if t is A.Assign:
+            out.append(["as", ser_value(st.lhs, sm, ids), ser_value(st.rhs, sm, ids)])
+        elif t is A.Switch:
+            out.append(["swst", ser_value(st.test, sm, ids),
+                        [[None if ps is None else list(ps), ser_stmts(body, sm, ids)] for ps, body, _ in st.cases]])
+        else:
+            raise ValueError(f"cannot serialise statement of type {t.__name__}")
+    return out
+
+
 def remap(t, m):
     k = t[0]
     if k == "c":
@@ -75,18 +157,26 @@ class DGen:
         self.mem = mem
         self.memlist = []
         self.memtb = []
+        self.cs = r.random() < 0.35            # ClockSignal / ResetSignal leaves in this design
+        self.wide_ctl = (not mem) or r.random() < 0.25
+        self.design_ctl = r.random() < 0.2     # some controls are expressions over design state
         self.sigs = []            # [w, signed, init, reset_less]
         self.names = []
         self.doms = []            # {"name", "pos", "rst": 0 none / 1 sync / 2 async, "clk": idx, "rsti": idx|None}
+        self.sync_name = r.random() < 0.25
         nd = ndom or r.choice((1, 2, 2, 3))
         for k in range(nd):
             rst = r.choice((0, 1, 1, 2, 2))
             if f7 is True and k == 0:
                 rst = 2
-            d = {"name": "d%d" % k, "pos": r.random() < 0.65, "rst": rst, "clk": self.sig(1, False, 0, False, "clk%d" % k),
-                 "rsti": None}
+            share = k > 0 and r.random() < 0.12      # two domains on one clock (and maybe one reset) signal
+            d = {"name": "sync" if (k == 0 and self.sync_name) else "d%d" % k, "pos": r.random() < 0.65, "rst": rst,
+                 "clk": self.doms[0]["clk"] if share else self.sig(1, False, 0, False, "clk%d" % k), "rsti": None}
             if rst:
-                d["rsti"] = self.sig(1, False, 0, False, "rst%d" % k)
+                if share and self.doms[0]["rsti"] is not None and r.random() < 0.5:
+                    d["rsti"] = self.doms[0]["rsti"]
+                else:
+                    d["rsti"] = self.sig(1, False, 0, False, "rst%d" % k)
             self.doms.append(d)
         self.naliases = r.choice((0, 1, 1, 2))
         self.f7 = f7
@@ -94,7 +184,7 @@ class DGen:
         self.ctl = []
         for k in range(r.choice((1, 2, 3))):
             q = r.random()
-            shape = (1, False) if (q < 0.8 or mem) else ((2, False) if q < 0.9 else ((1, True) if q < 0.95 else (0, False)))
+            shape = (1, False) if (q < 0.8 or not self.wide_ctl) else ((2, False) if q < 0.9 else ((1, True) if q < 0.95 else (0, False)))
             self.ctl.append(self.sig(shape[0], shape[1], 0, False, "ctl%d" % k))
         self.inputs = []
         for k in range(r.choice((1, 2, 3))):
@@ -112,7 +202,22 @@ class DGen:
         return len(self.sigs) - 1
 
     def shapes(self):
-        return [[s[0], s[1]] for s in self.sigs]
+        return ShapeTab([[s[0], s[1]] for s in self.sigs])
+
+    def dom_id(self, name):
+        names = [d["name"] for d in self.doms] + ["x%d" % k for k in range(self.naliases)] + ["zz"]
+        return names.index(name) + 1
+
+    def cs_leaves(self, names):
+        """late-bound signals of the domains usable at a node (a few of them, some designs only)"""
+        if not self.cs or not names:
+            return []
+        r = self.r
+        out = []
+        for nm in r.sample(names, min(len(names), 2)):
+            k = r.choice((0, 0, 1, 1, 2 if r.random() < 0.3 else 1))
+            out.append(CS_BASE + 3 * self.dom_id(nm) + k)
+        return out
 
     def new_state(self, rl=None):
         r = self.r
@@ -221,6 +326,8 @@ class DGen:
             if not pairs:
                 pairs.append([(aliases or domnames)[0], domnames[-1]])
             pairs = [p for p in pairs if p[0] != p[1]] or [["zz", domnames[0]]]
+            if "sync" in domnames and len(domnames) > 1 and r.random() < 0.3:
+                pairs = [["sync", r.choice([d for d in domnames if d != "sync"])]]     # DomainRenamer("name")
             return ["ren", pairs]
         kind = "rst" if q < 0.65 else "en"
         ctl = []
@@ -229,10 +336,17 @@ class DGen:
                 ctl.append([nme, self.control()])
         if not ctl:
             ctl.append([names[0], self.control()])
+        if "sync" in names and r.random() < 0.3:
+            ctl = [["sync", self.control()]]                                            # ResetInserter(ctl)
         return [kind, ctl]
 
     def control(self):
         r = self.r
+        if self.design_ctl and self.state and r.random() < 0.4:
+            e = self.expr(self.state + self.tbsigs, 1)
+            if not self.wide_ctl or r.random() < 0.6:
+                e = ["o1", "b", e]
+            return e
         c = ["s", r.choice(self.ctl)]
         q = r.random()
         if q < 0.12 and len(self.ctl) > 1:
@@ -252,6 +366,7 @@ class DGen:
         here_alias = sorted(set(anc_alias) | set(usable_alias))
         st = []
         written = ["comb"] + domnames + here_alias
+        syncnames = domnames + here_alias
         groups = r.choice((1, 2, 2, 3))
         picked = []
         for _ in range(groups):
@@ -265,7 +380,8 @@ class DGen:
                 body = []
                 for _ in range(r.choice((1, 1, 2))):
                     i = self.new_state(rl=False)
-                    allowed = self.tbsigs + [s for s in self.state if s not in self.comb_sigs and s != i] + list(self.comb_sigs)
+                    allowed = (self.tbsigs + [s for s in self.state if s not in self.comb_sigs and s != i]
+                               + list(self.comb_sigs) + self.cs_leaves(syncnames))
                     self.comb_sigs.append(i)
                     self.owners[i] = [[0, self.sigs[i][0], path, "comb"]]
                     body += self.stmts([(i, 0, self.sigs[i][0], True)], allowed, 1, r.choice((1, 1, 2)))
@@ -298,7 +414,7 @@ class DGen:
         # sync bodies are generated after all targets exist so that expressions may read any signal
         for e in entries:
             if e[0] != "comb":
-                allowed = self.tbsigs + self.state
+                allowed = self.tbsigs + self.state + self.cs_leaves(syncnames)
                 e[1] = self.stmts(e[1], allowed, 2, r.choice((1, 2, 2, 3)))
         mems = []
         syncw = [d for d in written if d != "comb"]
@@ -405,10 +521,11 @@ def build_node(case, node, so, root, wrapped):
     e = m
     if wrapped:
         for w in node["wr"]:
+            bare = len(w[1]) == 1 and w[1][0][0] == "sync"      # ResetInserter(ctl) / DomainRenamer("name") forms
             if w[0] == "ren":
-                e = DomainRenamer({a: b for a, b in w[1]})(e)
+                e = DomainRenamer(w[1][0][1] if bare else {a: b for a, b in w[1]})(e)
             else:
-                ctl = {dn: G.build(c, so) for dn, c in w[1]}
+                ctl = G.build(w[1][0][1], so) if bare else {dn: G.build(c, so) for dn, c in w[1]}
                 e = (ResetInserter if w[0] == "rst" else EnableInserter)(ctl)(e)
     return e
 
@@ -438,6 +555,8 @@ def make_signals(case):
         for sg_, (w, sgn, init, rl) in zip(so, case["sigs"]):
             if (len(sg_), bool(sg_.shape().signed), sg_.init, bool(sg_.reset_less)) != (w, bool(sgn), init, bool(rl)):
                 raise ValueError("memory port signal differs from its declaration")
+    ids = dom_ids(case)
+    so = SigObjs(so, {v: k for k, v in ids.items()})
     case_mems[id(so)] = mems
     return so
 
@@ -460,7 +579,7 @@ def ser_fragment(frag, sm, ids):
     for dn, stmts in frag.statements.items():
         if dn not in ids:
             ids[dn] = len(ids)
-        st.append([ids[dn], astser.ser_stmts(stmts, sm)])
+        st.append([ids[dn], ser_stmts(stmts, sm, ids)])
     from amaranth.hdl._mem import MemoryInstance
     mems, subs = [], []
     for sf, _n, _s in frag.subfragments:
@@ -470,10 +589,10 @@ def ser_fragment(frag, sm, ids):
                     ids[pt._domain] = len(ids)
             shp = sf._data.shape
             mems.append({"w": shp.width, "sg": bool(shp.signed), "depth": sf._data.depth, "init": [int(v) for v in sf._data.init],
-                         "wports": [[ids[pt._domain], astser.ser_value(pt._addr, sm), astser.ser_value(pt._data, sm),
-                                     astser.ser_value(pt._en, sm)] for pt in sf._write_ports],
-                         "rports": [[ids[pt._domain], astser.ser_value(pt._addr, sm), astser.ser_value(pt._data, sm),
-                                     astser.ser_value(pt._en, sm), list(pt._transparent_for)] for pt in sf._read_ports]})
+                         "wports": [[ids[pt._domain], ser_value(pt._addr, sm, ids), ser_value(pt._data, sm, ids),
+                                     ser_value(pt._en, sm, ids)] for pt in sf._write_ports],
+                         "rports": [[ids[pt._domain], ser_value(pt._addr, sm, ids), ser_value(pt._data, sm, ids),
+                                     ser_value(pt._en, sm, ids), list(pt._transparent_for)] for pt in sf._read_ports]})
         else:
             subs.append(ser_fragment(sf, sm, ids))
     return {"st": st, "mems": mems, "subs": subs}
@@ -577,9 +696,9 @@ def gen_events(rng, case, n):
     cur = {i: case["sigs"][i][2] for i in case["tb"]}
     toggles = []
     for d in case["doms"]:
-        toggles.append(d["clk"])
-        if d["rsti"] is not None:
-            toggles.append(d["rsti"])
+        for i in (d["clk"], d["rsti"]):
+            if i is not None and i not in toggles:      # domains may share a clock / reset signal
+                toggles.append(i)
     others = [i for i in case["tb"] if i not in toggles]
     evs = []
     block = []
@@ -629,7 +748,9 @@ def final_owner_dom(case, path, dn):
 def make_case(kind, rng, nev=0, **kw):
     g = make_design(rng, **kw)
     case = {"k": kind, "sigs": g.sigs, "names": g.names, "doms": g.doms, "alias": ["x%d" % k for k in range(g.naliases)] + ["zz"],
-            "tree": g.tree, "tb": g.tbsigs + g.memtb, "ctlsigs": g.ctl, "reads": g.state, "memlist": g.memlist}
+            "tree": g.tree, "tb": g.tbsigs + g.memtb, "ctlsigs": g.ctl, "reads": g.state, "memlist": g.memlist,
+            "flags": {"cs": g.cs, "wide": g.wide_ctl and bool(g.memlist), "dctl": g.design_ctl,
+                      "share": len(set(d["clk"] for d in g.doms)) < len(g.doms), "syncname": g.sync_name}}
     finish_case(case, g.owners, rng, nev)
     return case
 
@@ -638,6 +759,17 @@ def finish_case(case, owners, rng, nev):
     case["own"] = {str(i): [[lo, hi, final_owner_dom(case, tuple(path), dn)] for lo, hi, path, dn in ow]
                    for i, ow in owners.items()}
     case["ev"] = gen_events(rng, case, nev) if nev else []
+    # the model is given the control values the real inserters receive (constants as Const() stores them)
+    so = make_signals(case)
+    sm, ids = astser.SigMap(so), dom_ids(case)
+
+    def norm_ctl(node):
+        for w in node["wr"]:
+            if w[0] != "ren":
+                w[1] = [[dn, ser_value(G.build(ct, so), sm, ids)] for dn, ct in w[1]]
+        for sub in node["subs"]:
+            norm_ctl(sub)
+    norm_ctl(case["tree"])
     case["orig"] = elaborate(case, False)
 
 
@@ -700,7 +832,7 @@ def gen_cases(tier, seed):
         cases.append(fixed_case("x", stack, rng, 0))
         if len(st) <= 2 or rng.random() < 0.5:
             cases.append(fixed_case("t", stack, rng, 40))
-    nrand = 1600 if thorough else 420
+    nrand = 1400 if thorough else 420
     nev = 80 if thorough else 40
     for k in range(nrand):
         q = k % 10
@@ -716,7 +848,65 @@ def gen_cases(tier, seed):
             cases.append(make_case("s", rng, nev=nev, f7=False))
         else:
             cases.append(make_case("s", rng, nev=nev, f7=(True if k % 20 == 9 else None)))
+    # directed: transformer / prepare errors compared on the exception class with the faithful model
+    for v in range(3):
+        for kind in ("x", "m"):
+            c = wide_case(v, rng)
+            c["k"] = kind
+            cases.append(c)
+    for strict_on_resetless in (True, False):
+        cases.append(late_bound_case(strict_on_resetless, rng))
+    # spec-stream cases of a LISTED finding only (an unlisted id would be an ordinary violation)
+    import common as C
+    if any(f.get("id") == WIDE and f.get("property") == ID and f.get("status") == "open" for f in C.load_known_findings()):
+        for v in range(3):
+            cases.append(wide_case(v, rng))
     return cases
+
+
+def late_bound_case(strict_on_resetless, rng):
+    """q counts in x0 (renamed to d1); p samples ClockSignal(x0), ResetSignal(x0, allow_reset_less) and ResetSignal(d0):
+    d0 is reset-less in the first variant, so resolving the strict ResetSignal raises DomainError"""
+    c = {"k": "t",
+         "sigs": [[1, False, 0, False], [1, False, 0, False], [1, False, 0, False], [3, False, 0, False],
+                  [3, False, 2, False], [3, False, 0, False]] if not strict_on_resetless else
+                 [[1, False, 0, False], [1, False, 0, False], [1, False, 0, False], [3, False, 0, False],
+                  [3, False, 2, False], [3, False, 0, False]],
+         "names": ["clk0", "clk1", "rst", "in0", "q", "p"],
+         "doms": [{"name": "d0", "pos": True, "rst": 0 if strict_on_resetless else 1, "clk": 0,
+                   "rsti": None if strict_on_resetless else 2},
+                  {"name": "d1", "pos": False, "rst": 2 if strict_on_resetless else 0, "clk": 1,
+                   "rsti": 2 if strict_on_resetless else None}],
+         "alias": ["x0", "zz"], "tb": [0, 1, 2, 3], "ctlsigs": [], "reads": [4, 5], "memlist": [],
+         "flags": {"cs": True}}
+    x0 = 3          # domain ids: d0 1, d1 2, x0 3
+    cs = lambda d, k: ["s", CS_BASE + 3 * d + k]
+    sub = {"st": [["x0", [["as", ["s", 4], ["o2", "+", ["s", 4], ["s", 3]]]]],
+                  ["comb", [["as", ["s", 5], ["cat", [cs(x0, 0), cs(x0, 1), cs(1, 2)]]]]]],
+           "wr": [["ren", [["x0", "d1"]]]], "mems": [], "subs": []}
+    c["tree"] = {"st": [], "wr": [], "mems": [], "subs": [sub]}
+    finish_case(c, {4: [[0, 3, (0,), "x0"]], 5: [[0, 3, (0,), "comb"]]}, rng, 16)
+    return c
+
+
+def wide_case(v, rng):
+    """EnableInserter with a control that is not unsigned(1) over a memory with a sync read port, then another
+    transformer (v = 0, 1) or only the simulator's own DomainLowerer (v = 2)"""
+    cshape = [[2, False], [1, True], [2, False]][v]
+    c = {"k": "a",
+         "sigs": [[1, False, 0, False], [1, False, 0, False], cshape + [0, False], [1, False, 0, False],
+                  [1, False, 0, False], [4, False, 0, False], [1, False, 0, False], [1, False, 0, False],
+                  [4, False, 0, False], [1, False, 1, False]],
+         "names": ["clk0", "rst0", "ctl0", "ctl1", "w_addr", "w_data", "w_en", "r_addr", "r_data", "r_en"],
+         "doms": [{"name": "d0", "pos": True, "rst": 1, "clk": 0, "rsti": 1}], "alias": ["zz"],
+         "tb": [0, 1, 2, 3, 4, 5, 6, 7, 9], "ctlsigs": [2, 3], "reads": [8],
+         "memlist": [{"w": 4, "depth": 2, "init": [5],
+                      "wports": [{"dom": "d0", "gran": None, "addr": 4, "data": 5, "en": 6}],
+                      "rports": [{"dom": "d0", "addr": 7, "data": 8, "en": 9, "transp": [0]}]}]}
+    wr = [["en", [["d0", ["s", 2]]]]] + ([["rst", [["d0", ["s", 3]]]]] if v < 2 else [])
+    c["tree"] = {"st": [], "wr": [], "mems": [], "subs": [{"st": [], "wr": wr, "mems": [0], "subs": []}]}
+    finish_case(c, {8: [[0, 4, (0,), "d0"]]}, rng, 12)
+    return c
 
 
 # ------------------------------------------------------------------ implementation side
@@ -741,11 +931,29 @@ def collect_chunks(frag, sm):
     return out
 
 
+EXC = {"AssertionError": 1, "DomainError": 2}
+
+
 def run_impl(case):
+    """[1, ...] or [-1, code of the exception class] (x, t, s, m, a); c has no tag"""
+    if case["k"] == "c":
+        return run_impl_inner(case)
+    try:
+        out = [1] + run_impl_inner(case)
+    except Exception as e:
+        out = [-1, EXC.get(type(e).__name__, 9)]
+    if case["k"] == "s" and out[0] == 1:      # compared with 1 :: faithful trace ++ spec trace
+        out = out + out[1:]
+    if case["k"] == "a":                      # compared with faithful answer ++ spec answer
+        out = out + out
+    return out
+
+
+def run_impl_inner(case):
     from amaranth.hdl import Cat
     from amaranth.hdl._ir import Fragment
     k = case["k"]
-    shapes = [[s[0], s[1]] for s in case["sigs"]]
+    shapes = case_shapes(case)
     if k == "x":
         return enc_frag(elaborate(case, True), shapes)
     if k == "c":
@@ -758,7 +966,7 @@ def run_impl(case):
     sim = Simulator(top)
     rows = []
     reads = [so[i] for i in case["reads"]]
-    if k == "m":        # every row of every memory (pre-order of the hierarchy) after the signals
+    if k in ("m", "a"):  # every row of every memory (pre-order of the hierarchy) after the signals
         for mem, md in zip(case_mems[id(so)], case["memlist"]):
             reads += [mem.data[a] for a in range(md["depth"])]
 
@@ -825,7 +1033,7 @@ def all_entries(orig):
 
 
 def coq_term(case):
-    shapes = [[s[0], s[1]] for s in case["sigs"]]
+    shapes = case_shapes(case)
     ids = dom_ids(case)
     k = case["k"]
     if k == "c":
@@ -833,11 +1041,14 @@ def coq_term(case):
                                  for st in all_entries(case["orig"])) + " ++ [])"
     tree = coq_tree(case["tree"], case["orig"], ids, shapes)
     if k == "x":
-        return f"(k_xfrm {coq_tab(case)} {tree})"
+        return f"(k_xfrm_cs {CS_BASE} {coq_tab(case)} {tree})"
     reads = "[" + "; ".join(f"{i}%nat" for i in case["reads"]) + "]"
     evs = "[" + "; ".join("[" + "; ".join(f"({i}%nat, {z(v)})" for i, v in ev) + "]" for ev in case["ev"]) + "]"
-    fn = {"t": "k_trace", "s": "k_trace_spec", "m": "k_mtrace"}[k]
-    return f"({fn} {coq_tab(case)} {coq_doms(case)} {tree} {reads} {evs})"
+    args = f"{coq_tab(case)} {coq_doms(case)} {tree} {reads} {evs}"
+    if k == "a":     # faithful answer, then the SPEC answer: the wrappers never raise (memory designs without late-bound signals)
+        return f"(k_mtrace_cs {CS_BASE} {len(case['doms'])} {args} ++ 1 :: k_mtrace {args})"
+    fn = {"t": "k_trace_cs", "s": "k_trace_both", "m": "k_mtrace_cs"}[k]
+    return f"({fn} {CS_BASE} {len(case['doms'])} {args})"
 
 
 # ------------------------------------------------------------------ reporting
@@ -851,19 +1062,26 @@ def classify(c):
     kinds = "".join("nsa"[d["rst"]] + ("+" if d["pos"] else "-") for d in c["doms"])
     nwr = sum(1 for ch in wr_sig(c["tree"]) if ch in "REN")
     mem = ":mem" if c.get("memlist") else ""
-    return f"{c['k']}:doms={kinds}:wrappers={min(nwr, 6)}{mem}"
+    fl = c.get("flags", {})
+    tags = "".join(":" + t for t in ("cs", "wide", "dctl", "share", "syncname") if fl.get(t))
+    return f"{c['k']}:doms={kinds}:wrappers={min(nwr, 6)}{mem}{tags}"
 
 
 def nontrivial(c, obs):
     if not isinstance(obs, list) or not obs:
         return False
     if c["k"] == "x":
-        return any(ch in "REN" for ch in wr_sig(c["tree"]))
+        return obs[0] == 1 and any(ch in "REN" for ch in wr_sig(c["tree"]))
     if c["k"] == "c":
         return len(obs) > 0
-    n = len(c["reads"]) + (sum(m["depth"] for m in c.get("memlist", ())) if c["k"] == "m" else 0)
+    if obs[0] != 1:
+        return False
+    obs = obs[1:]
+    if c["k"] in ("s", "a"):
+        obs = obs[:len(obs) // 2]
+    n = len(c["reads"]) + (sum(m["depth"] for m in c.get("memlist", ())) if c["k"] in ("m", "a") else 0)
     rows = [obs[i:i + n] for i in range(0, len(obs), n)]
-    if c["k"] == "m":   # some memory row changes during the trace
+    if c["k"] in ("m", "a"):   # some memory row changes during the trace
         k0 = len(c["reads"])
         return any(r[k0:] != rows[0][k0:] for r in rows)
     return any(r != rows[0] for r in rows)
@@ -880,8 +1098,19 @@ def first_divergence(c, obs, model):
 def known_finding(c, obs, model):
     """F7: spec-vs-code divergence whose first differing step is a reset rise of an async-reset domain without an
     active edge of that domain's clock, in bits of a reset-less signal driven from that domain."""
-    if c["k"] != "s" or len(obs) != len(model):
+    if c["k"] == "a":
+        # the faithful model reproduces the AssertionError exactly; the spec (no exception) answer follows it
+        model = list(model)
+        if list(obs[:2]) == [-1, 1] and model[:2] == [-1, 1] and len(model) > 2 and model[2] == 1:
+            return WIDE
         return None
+    if c["k"] != "s" or len(obs) != len(model) or obs[0] != 1:
+        return None
+    model = list(model)
+    half = (len(obs) - 1) // 2
+    if model[:1 + half] != list(obs[:1 + half]):
+        return None          # the FAITHFUL model must reproduce the observation exactly
+    obs, model = list(obs[1 + half:]), model[1 + half:]
     fd = first_divergence(c, obs, list(model))
     if fd is None:
         return None
@@ -912,16 +1141,16 @@ def known_finding(c, obs, model):
 
 
 def shrink(c, obs, model):
-    if c["k"] not in ("t", "s") or len(obs) != len(model):
-        return c, obs, model      # memory traces (m) are reported unshrunk
-    fd = first_divergence(c, obs, list(model))
+    if c["k"] != "t" or len(obs) != len(model) or obs[0] != 1 or model[0] != 1:
+        return c, obs, model      # only plain traces are shrunk
+    fd = first_divergence(c, obs[1:], list(model)[1:])
     if fd is None:
         return c, obs, model
     step = fd[0]
     n = len(c["reads"])
     c2 = dict(c)
     c2["ev"] = c["ev"][:step]
-    return c2, obs[:(step + 1) * n], list(model)[:(step + 1) * n]
+    return c2, obs[:1 + (step + 1) * n], list(model)[:1 + (step + 1) * n]
 
 
 def explain(c):
